@@ -94,6 +94,9 @@ def shard_main(ctx):
     ctx.run_hypothesis([gen.dataflow_charts('lua'), gen.event_histories(8, ['a', 'b'])],
                        lambda ch, evs: check_case(ctx, ch, evs, extra_labels=['dataflow-profile']), p["examples"], case_repr,
                        name="dataflow")
+    # completion of parallel states with histories around (done.state events)
+    ctx.run_hypothesis([gen.parallel_final_charts('lua'), gen.event_histories(8, ['a', 'b', 'c', 'a', 'b', 'c', 'leave', 'back'])],
+                       lambda ch, evs: check_case(ctx, ch, evs, extra_labels=['parallel-final-profile']), p["examples"] // 2, case_repr, name="pardone")
     # completion profile: deep / multi-target initial attributes and <initial> elements on nested charts
     ctx.run_hypothesis([gen.charts(gen.completion_profile(), 'lua'), gen.event_histories(5, ['a', 'b'])],
                        lambda ch, evs: check_case(ctx, ch, evs, extra_labels=['completion-profile']), p["examples"], case_repr,
